@@ -24,6 +24,20 @@ terminal accept latencies per chunk, terminal announcements (gap, length),
 init latency, initial values of the terminal's toggle bits, channel.  All
 scripts of the stated families are enumerated; every execution is run to
 completion (explicit horizon) on fresh pipes, which are closed afterwards.
+
+Families T, R, X drive one Serial device (transmit direction exhaustive,
+receive direction exhaustive, both at once).  Family D drives TWO Serial
+devices in one SyncGroup in one execution - both channels of one EL6002 (in
+either device order) or one channel of each of two EL6002 - each with its own
+script, its own terminal model and its own application; the scripts of the
+first device include writes of several chunks (23, 45 bytes, back to back)
+while the second is idle, writes later, or is busy too.  Each channel is
+judged on its own by the same oracles: it must present exactly the bytes its
+own application wrote, and deliver exactly what its own terminal announced.
+Family H is a history: a Serial that was initialised, given bytes and then
+abandoned after c cycles (bytes still in its pipe, fetched but unsent, or in
+flight; pipes closed), followed by a fresh Serial in the same process, which
+must behave as if it were the first.
 """
 import copy
 import itertools
@@ -40,10 +54,12 @@ from ebpfcat.terminals import EL6002
 PROP = "C28"
 LEVEL = "model_checking"
 RULE = ("every script of the stated families (application writes x terminal "
-        "accept latencies x terminal announcements x init behaviour) is one "
-        "execution of the real Serial.update against the terminal model; "
-        "non-trivial = at least one chunk crossed the channel; distinct = "
-        "distinct script")
+        "accept latencies x terminal announcements x init behaviour; for one "
+        "Serial device, for two Serial devices of one sync group with a "
+        "script each, and for a fresh Serial after one that was abandoned "
+        "with unsent bytes) is one execution of the real Serial.update "
+        "against one terminal model per channel; non-trivial = at least one "
+        "chunk crossed a channel; distinct = distinct script")
 
 K = 2                       # maximal accept latency (frames)
 LENGTHS = (1, 21, 22, 23, 45)
@@ -200,28 +216,38 @@ def subs_of(case):
                  term=0, seed=case["seed"])]
 
 
-# mutable state the library keeps outside of Serial instances (none in the
-# unchanged tree).  It is put back before every execution, so that executions
-# are independent of which ones a forked worker ran before; *inside* one
-# execution (several Serial devices, a Serial abandoned before another one is
-# made) it is of course left alone - that is what is being checked.
+# State the library keeps outside of Serial instances (class attributes of
+# Serial that get rebound or mutated, module globals; the unchanged tree has
+# none that changes).  It is put back before every execution, so that
+# executions are independent of which ones a forked worker ran before;
+# *inside* one execution (several Serial devices, a Serial abandoned before
+# another one is made) it is of course left alone - that is what is checked.
 _MUTABLE = (bytearray, list, dict, set)
-_LIBSTATE = [(ns, k, copy.deepcopy(v))
-             for ns in (vars(Serial), vars(ebpfcat.serial))
-             for k, v in sorted(ns.items(), key=lambda kv: kv[0])
-             if isinstance(v, _MUTABLE) and not k.startswith("__")]
+_SIMPLE = (bool, int, float, bytes, str, tuple, frozenset, type(None))
+_NAMESPACES = (Serial, ebpfcat.serial)
+_LIBSTATE = [{k: (v, copy.deepcopy(v) if isinstance(v, _MUTABLE) else None)
+              for k, v in vars(ns).items()
+              if not (k.startswith("__") and k.endswith("__"))}
+             for ns in _NAMESPACES]
 
 
 def reset_library_state():
-    for ns, k, saved in _LIBSTATE:
-        cur = ns.get(k)
-        if type(cur) is not type(saved):
-            continue
-        if isinstance(cur, (bytearray, list)):
-            cur[:] = saved
-        else:
-            cur.clear()
-            cur.update(saved)
+    for ns, saved in zip(_NAMESPACES, _LIBSTATE):
+        for k in sorted(vars(ns)):
+            if k.startswith("__") and k.endswith("__"):
+                continue
+            if k not in saved:
+                if isinstance(vars(ns)[k], _MUTABLE + _SIMPLE):
+                    delattr(ns, k)
+                continue
+            v, content = saved[k]
+            if vars(ns)[k] is not v and isinstance(v, _MUTABLE + _SIMPLE):
+                setattr(ns, k, v)
+            if isinstance(v, (bytearray, list)):
+                v[:] = content
+            elif isinstance(v, (dict, set)):
+                v.clear()
+                v.update(content)
 
 
 class Rig:
@@ -510,7 +536,7 @@ def cases(ctx):
     togs = [(0, 0), (1, 0), (0, 1), (1, 1)]
     n = 0
     for app_a, app_b in itertools.product(apps_a, apps_b):
-        for place in (places[:3] if q else places):
+        for place in places:
             for j in range(2 if q else 4):
                 n += 1
                 lat_a, lat_b = latpairs[(n * 2 + j) % len(latpairs)]
@@ -629,8 +655,8 @@ def run(ctx):
         app_gaps=[0, 1, 2, 3], rx_gaps=list(range(K + 1)),
         init_latency=list(range(K + 1)), initial_toggle_bits=4, channels=2,
         devices_per_sync_group=[1, 2],
-        placements_of_two_devices=["t0c1+t0c2", "t0c2+t0c1", "t0c1+t1c1"] +
-        ([] if ctx.quick else ["t0c2+t1c2"]),
+        placements_of_two_devices=["t0c1+t0c2", "t0c2+t0c1", "t0c1+t1c1",
+                                   "t0c2+t1c2"],
         abandoned_after_cycles=[1, 6 if ctx.quick else 9])
     res.cov["bound_completed"] = "all scripts of families T, R, X, D, H"
     for k in ("two_devices_transmitting_at_once",
